@@ -23,13 +23,14 @@ Theorem c15_int_roundtrip : forall z rest, int64 z -> stops_int rest ->
 Proof. exact RoundTripInst.rt_int_roundtrip. Qed.
 Print Assumptions c15_int_roundtrip.
 
-(* Int through a numeric specification: %[+][ ][0][width][l]d / i of a value the directive can represent
-   is read back by %[l]d (or %[l]i when no zero padding was requested) into the same value, consuming
-   exactly the characters written; without `l` this needs the sign restoration of scan_from_with (F6) *)
-Theorem c15_int_spec_roundtrip : forall sp ssp z rest,
-  conv_signed (n_conv sp) = true ->
-  (n_conv ssp = 100%N \/ (n_conv ssp = 105%N /\ n_zero sp = false)) ->
-  in_range (n_long sp) z -> in_range (n_long ssp) z -> stops_int rest ->
+(* Int through a numeric specification (int_directive_ok lists the two classes):
+   - %[+][ ][0][width][l]d / i of a value the directive represents (int64 with l, int32 without), read back
+     by %[l]d, or by %[l]i when no zero padding was requested; without `l` this needs the sign restoration
+     of scan_from_with (F6);
+   - %[0][width][l]u / x / X / o read back by a directive of the same base: with `l` for EVERY int64
+     (two's complement), without `l` for 0 <= z < 2^32;
+   the value comes back equal and exactly the characters written are consumed *)
+Theorem c15_int_spec_roundtrip : forall sp ssp z rest, int_directive_ok rt_cfg sp ssp z rest ->
   scan_num rt_cfg ssp (print_num sp (VInt z) ++ rest)%list = Some (VInt z, length (print_num sp (VInt z))).
 Proof. exact RoundTripInst.rt_int_spec_roundtrip. Qed.
 Print Assumptions c15_int_spec_roundtrip.
@@ -126,3 +127,7 @@ Example c15_ex_finite : finite 4728057454355442549%N.
 Proof. exact RoundTripInst.ex_finite. Qed.
 Example c15_ex_lits_ok : lits_ok rt_cfg ex_items ex_rest.
 Proof. exact RoundTripInst.ex_lits_ok. Qed.
+Example c15_ex_int_directive_d : int_directive_ok rt_cfg spec_p08d spec_d (-2147483648) ex_rest.
+Proof. exact RoundTripInst.ex_int_directive_d. Qed.
+Example c15_ex_int_directive_lX : int_directive_ok rt_cfg spec_lX spec_lx (-5) ex_rest.
+Proof. exact RoundTripInst.ex_int_directive_lX. Qed.
